@@ -255,7 +255,9 @@ impl<'a> R<'a> {
                             let rc = norm(rc);
                             if mc.method == m.trim() && (rc == recv_txt || (rc == "(tuple)" && is_tuple) || rc == "*") {
                                 self.note(format!("R8 method call `{}.{}` -> prelude/extracted function `{}`", rc, m.trim(), f.trim()));
-                                let mut args = vec![self.expr(&mc.receiver)];
+                                // `=>&f`: the receiver is a place (e.g. a field), passed by reference as auto-ref does
+                                let (f, by_ref) = match f.trim().strip_prefix('&') { Some(g) => (g, true), None => (f.trim(), false) };
+                                let mut args = vec![if by_ref { format!("&{}", self.expr(&mc.receiver)) } else { self.expr(&mc.receiver) }];
                                 for a in mc.args.iter() {
                                     args.push(self.expr(a));
                                 }
